@@ -719,6 +719,17 @@ func (c *Ctx) acceptSkeleton(rule, typ string, wantSuccessCode bool) {
 		for _, st := range steps {
 			g := flow.StaticCallee(st)
 			key := fmt.Sprintf("%s:accept#%d-after-%s", fname(f), nAcc, g.Name())
+			// a return that hands the step's own error to the caller propagates its verdict
+			propagates := false
+			for _, v := range flow.SpillSources(ret.Results[errIdx]) {
+				if v == errorResult(st) {
+					propagates = true
+				}
+			}
+			if propagates && flow.PathAvoiding(f, nil, func(x ssa.Instruction) bool { return x == ssa.Instruction(ret) }, func(x ssa.Instruction) bool { return x == ssa.Instruction(st) }) == nil {
+				r.Ok(rule, key, c.pos(ret), "the return hands the step's own error to the caller (verdict propagated)")
+				continue
+			}
 			if p := flow.PathAvoiding(f, nil, func(x ssa.Instruction) bool { return x == ssa.Instruction(ret) }, func(x ssa.Instruction) bool { return x == ssa.Instruction(st) }); p != nil {
 				r.Fail(rule, key, c.pos(ret), "the message can be accepted without running the validation step "+fname(g), c.witness(p)...)
 				continue
